@@ -321,6 +321,8 @@ pub const ELEM_NAMES: &[&str] = &[
     "ab", "bc", "abc", "ca", "items", "item", "sid", "i", "dx", "idx",
     // combining marks and conjuncts (escaped by Debug formatting, reordered by normalisation)
     "e\u{301}x", "ez", "e\u{301}", "\u{915}\u{94d}\u{937}", "\u{915}\u{92e}", "a\u{308}b", "ab\u{308}",
+    // names that begin with a numeric character that is not an ASCII digit
+    "\u{b2}x", "\u{bd}", "\u{663}a", "\u{2460}", "\u{2163}b",
     // names other vocabularies treat specially
     "br", "hr", "img", "meta", "html", "body", "script",
 ];
@@ -338,6 +340,8 @@ const TEXTS: &[&str] = &[
     "текст", "\t", " padded ", "'", "\"", "/>", "=",
     // references to entities a DTD may declare (the reader does not resolve them; they are ordinary non-empty text)
     "&e;", "&nbsp;", "a&copy;b", "&e;&e;",
+    // values a type-guessing renderer would react to
+    "true", "false", "0", "1", "-1", "3.14", "1e3", "null", "NaN", "2024-09-28", "yes",
 ];
 const CDATAS: &[&str] = &["", "x", "<b>not an element</b>", " ", "]]", "&amp;", "a]]b", "-->", "?>", "текст"];
 const COMMENTS: &[&str] = &["", " c ", "<x/>", "<x a='1'>", "- - ", "]]>", "?>", "&", "текст", " <r> "];
